@@ -753,7 +753,7 @@ def enum_many_logins(tier):
     in a process whose descriptor limit is 48 above what it already uses - then the exchange that was open all along
     answers with the right cookie."""
     for n in ((150, 400) if tier == 'quick' else (150, 400, 1500)):
-        for ends in ('finish', 'cancel', 'mixed'):
+        for ends in ('finish', 'cancel', 'mixed', 'lone-finish', 'lone-cancel'):
             yield {'n': n, 'ends': ends}
 
 
@@ -786,10 +786,11 @@ def run_many_logins(case):
         used = len(os.listdir('/proc/self/fd'))
         resource.setrlimit(resource.RLIMIT_NOFILE, (min(hard, used + 48), hard))
         try:
-            parked = begin('parked')
+            lone = case['ends'].startswith('lone-')     # one exchange at a time: each one finds the keyring empty and leaves it empty
+            parked = None if lone else begin('parked')
             for i in range(case['n']):
                 srv, log, resp = begin('login-%d' % i)
-                how = case['ends'] if case['ends'] != 'mixed' else ('finish' if i % 2 else 'cancel')
+                how = case['ends'].replace('lone-', '') if case['ends'] != 'mixed' else ('finish' if i % 2 else 'cancel')
                 if how == 'cancel':
                     _exchange(srv, b'CANCEL')
                 else:
@@ -800,7 +801,7 @@ def run_many_logins(case):
                     _exchange(srv, b'BEGIN')
                 N.close(srv)
             if not out:
-                srv, log, resp = parked
+                srv, log, resp = parked if parked is not None else begin('last')
                 r = _exchange(srv, b'DATA ' + binascii.hexlify(resp))
                 if not r or r[0][0] != 'OK':
                     out.append(Disc('many.parked-client-refused', 'after %d other logins (%s) the exchange that was open all '
